@@ -755,18 +755,18 @@ def getBool (r : List (Field × Val)) (f : Field) : Option Bool :=
 
 /-- `str::parse::<i32>`: optional sign, at least one digit, in range. -/
 def parseI32 (s : Str) : Option Int :=
-  let (neg, ds) := match s with
-    | '-' :: r => (true, r)
-    | '+' :: r => (false, r)
-    | r => (false, r)
-  match ds with
+  match s with
   | [] => none
-  | _ :: _ =>
-    match scanDigits 0 ds with
-    | (n, []) =>
-      let v : Int := if neg then -(n : Int) else n
-      if v < -2147483648 || v > 2147483647 then none else some v
-    | _ => none
+  | c :: r =>
+    let ds := if c = '-' ∨ c = '+' then r else c :: r
+    match ds with
+    | [] => none
+    | _ :: _ =>
+      match scanDigits 0 ds with
+      | (n, []) =>
+        let v : Int := if c = '-' then -(n : Int) else n
+        if v < -2147483648 || v > 2147483647 then none else some v
+      | _ => none
 
 def splitDot : List Char → List Char × Option (List Char)
   | [] => ([], none)
